@@ -24,9 +24,10 @@ RULE = ("BFS over histories of {scheduler tick, pause(i), resume(i), stop(i), wh
         "objects are compared with a per-task reference (runnable / user-paused n times / waiting / finished(reason)). "
         "non-trivial = distinct canonical states in which some task is paused, waiting, finished or the cooperator is stopped")
 BOUNDS = {"quick": "depth 6 for k=1 (11 behaviours per next()), depth 5 for k=2 (6 behaviours); 1..3 initial tasks (each cooperate or coiterate), <= 3 tasks in total",
-          "thorough": "to closure: every reachable canonical state of a Cooperator with <= 3 tasks (cooperate or coiterate, added at "
-                      "any time), <= 2 nested harness pauses and <= 2 whenDone() per task, for k in {1,2,3} (9 / 6 / 4 behaviours "
-                      "per next()); the run reports exhaustive=False if any shard stops at the depth cap instead"}
+          "thorough": "k=1 (9 behaviours) and k=2 (6 behaviours): to closure, i.e. every reachable canonical state of a Cooperator with "
+                      "<= 3 tasks (cooperate or coiterate, added at any time), <= 2 nested harness pauses and <= 2 whenDone() per task "
+                      "(the run reports exhaustive=False if a closure shard stops at the depth cap instead); k=1 with all 11 "
+                      "behaviours (adds the suspended / owner-paused fired Deferreds) to depth 7; k=3 (4 behaviours) to depth 6"}
 ASSUMPTIONS = [
     "operations are issued between scheduler ticks / Deferred firings, plus (k=1 only) pause()/stop() of its own task from "
     "inside an iterator's next(); no operations from inside whenDone callbacks; resume() is only issued to undo a pause() "
@@ -44,7 +45,7 @@ ASSUMPTIONS = [
     "scheduler calls, starvation counters; private attributes are read for canonicalisation only",
 ]
 MIN = {"quick": {"states": 233000, "nontrivial": 229000, "outcomes": 7},
-       "thorough": {"states": 775000, "nontrivial": 770000, "outcomes": 7, "shards_searched_to_closure": 42}}
+       "thorough": {"states": 775000, "nontrivial": 770000, "outcomes": 7, "shards_searched_to_closure": 28}}
 
 BEH6 = ("V", "D", "S", "R", "Ds", "Df")
 # Dc: yields a Deferred that has already fired but whose chain is suspended on an unfired inner Deferred (called, paused by
@@ -56,7 +57,7 @@ BEH11 = BEH9 + ("Dc", "Dp")
 BEH4 = ("V", "D", "S", "R")
 CLOSURE = 60      # deeper than the deepest reachable canonical state (18 measured): the search runs until no new state appears
 TIERS = {"quick": [(1, 6, BEH11), (2, 5, BEH6)],
-         "thorough": [(1, CLOSURE, BEH11), (2, CLOSURE, BEH6), (3, 6, BEH4)]}
+         "thorough": [(1, CLOSURE, BEH9), (1, 7, BEH11), (2, CLOSURE, BEH6), (3, 6, BEH4)]}
 MAXTASKS = 3
 REASON_EXC = {"done": "TaskDone", "failed": "TaskFailed", "stopped": "TaskStopped", "schedstopped": "SchedulerStopped"}
 
